@@ -72,3 +72,16 @@ Fixpoint fold_res {S A : Type} (f : S -> A -> res S) (l : list A) (s : S) : res 
   | [] => Ok s
   | x :: l' => do s' <- f s x; fold_res f l' s'
   end.
+
+(* while True: body ... break : the body returns the new state and whether it broke out; [fuel] bounds the iterations *)
+Fixpoint while_res {S : Type} (fuel : nat) (body : S -> res (S * bool)) (s : S) : res S :=
+  match fuel with
+  | O => Raise OutOfFuel
+  | S f => do r <- body s; let '(s', brk) := r in if brk then Ok s' else while_res f body s'
+  end.
+
+Fixpoint mem_nat (x : nat) (l : list nat) : bool :=
+  match l with [] => false | y :: l' => Nat.eqb x y || mem_nat x l' end.
+
+Fixpoint assoc_nat {V} (l : list (nat * V)) (k : nat) : option V :=
+  match l with [] => None | (k', v) :: l' => if Nat.eqb k k' then Some v else assoc_nat l' k end.
